@@ -146,3 +146,33 @@ Proof.
       rewrite Hh1 in Hh2. injection Hh2 as <-. rewrite Hx1 in Hx2. injection Hx2 as <-. unfold created_state. by rewrite He.
     + by rewrite H1, H2.
 Qed.
+
+(* ---------------------------------------------------------------- debug assertions *)
+
+Definition same_but_debug (c1 c2 : config) : Prop := wrapping c1 = wrapping c2 /\ events c1 = events c2.
+
+(** With debug assertions on, a lookup either panics on one of the documented assertions or answers
+    exactly as without them. *)
+Theorem debug_only_adds_assertions_direct c1 c2 s h : debug c1 = true -> debug c2 = false -> Inv s -> key32 h ->
+  match resolve_direct c1 s h with RPanic _ => True | r => resolve_direct c2 s h = r end.
+Proof.
+  intros Hd1 Hd2 HI Hk. unfold resolve_direct. rewrite Hd1, Hd2. cbn [andb].
+  assert ((len s <=? cap s) = true) as -> by (apply Nat.leb_le, (i_le s HI)). cbn [negb].
+  destruct (rd_guard_empty (N.of_nat (len s))); [done|]. destruct (rd_guard_version (snd h) (version s)); [done|].
+  destruct (negb (trimmed_ok_u32 (hdense h))); [done|]. destruct (rd_guard_oob (hdense h) (N.of_nat (len s))); [done|].
+  destruct (ents s !! N.to_nat (hdense h)) as [e|] eqn:He; [|done].
+  destruct (fwd' s _ e HI He) as (Hsl & _ & Hc & _ & Hh).
+  destruct (negb (trimmed_ok_u32 (hslot e))); [done|].
+  assert ((hslot e <? N.of_nat (cap s))%N = true) as -> by (apply N.ltb_lt; lia). cbn [negb].
+  replace (N.to_nat (hslot e)) with (eslot e) by (unfold eslot; done). rewrite Hsl. cbn [s_ver s_idx sidx_is_free].
+  rewrite N.eqb_refl. done.
+Qed.
+
+Theorem debug_only_adds_assertions c1 c2 k s h : debug c1 = true -> debug c2 = false -> Inv s -> key32 h ->
+  match resolve_key c1 k s h with RPanic _ => True | r => resolve_key c2 k s h = r end.
+Proof.
+  intros Hd1 Hd2 HI Hk. destruct k; cbn [resolve_key]; [|by apply debug_only_adds_assertions_direct].
+  rewrite !(resolve_entity_form _ s h HI Hk). rewrite Hd1, Hd2.
+  destruct (len s =? 0); [done|]. destruct (N.leb (N.of_nat (cap s)) (hslot h)); [done|].
+  destruct (slots s !! N.to_nat (hslot h)) as [[[d| |] v]|]; try done. by destruct (v =? snd h)%N.
+Qed.
